@@ -133,6 +133,9 @@ pub const EXTRA_KINDS: &[(&str, &str)] = &[
     ("TextureCubeArray", "TextureCubeArray<float4>"),
     ("RaytracingAccelerationStructure", "RaytracingAccelerationStructure"),
     ("struct", "ResS"),
+    // an object type that is no resource: never bound (since fix 774c0b4 the allocator leaves it alone instead of
+    // panicking on DirectX); both exporters refuse the module with UnsupportedObjectType
+    ("RayDesc", "RayDesc"),
 ];
 
 /// statement shapes a resource mention can be wrapped in (each exercises another arm of the usage analysis)
